@@ -133,13 +133,22 @@ def run_worker(module, cases, shards=NPROC, extra_args=(), timeout=900, case_tim
     return [r for part in res for r in part]
 
 
+def _big_stack():
+    import resource
+    try:
+        resource.setrlimit(resource.RLIMIT_STACK, (resource.RLIM_INFINITY, resource.RLIM_INFINITY))
+    except (ValueError, OSError):
+        pass
+
+
 def run_model(lines, shards=NPROC, timeout=3600):
     """Evaluate request lines with the extracted Coq model; returns parsed answers (one per line)."""
     parts = chunks(lines, shards)
 
     def one(part):
+        # the extracted code recurses over inductive strings and lists: give it an unlimited stack
         p = subprocess.run([BIN], input="\n".join(part) + "\n", capture_output=True, text=True,
-                           timeout=timeout)
+                           timeout=timeout, preexec_fn=_big_stack)
         if p.returncode != 0:
             raise RuntimeError(f"model binary failed rc={p.returncode}: {p.stderr[-2000:]}")
         out = p.stdout.splitlines()
@@ -175,7 +184,8 @@ def crosscheck_vm(lines, k=8, maxlen=20000):
     sample = cand[::step][:k]
     if not sample:
         return 0, 0
-    p = subprocess.run([BIN], input="\n".join(sample) + "\n", capture_output=True, text=True, timeout=600)
+    p = subprocess.run([BIN], input="\n".join(sample) + "\n", capture_output=True, text=True, timeout=600,
+                       preexec_fn=_big_stack)
     outs = p.stdout.splitlines()
     sample = [(a, b) for a, b in zip(sample, outs) if len(b) < 4 * maxlen and '"' not in a and '"' not in b]
     if not sample:
